@@ -1311,6 +1311,9 @@ func (c *Ctx) elemKindOf(t types.Type) string {
 // that kind constructed directly around an entry count as parseVal of it (parseVal's table maps that Go type to that constructor: C12.R1).
 func (c *Ctx) foldBuildInto(v *sxView, p *Path, operand Term, par types.Object, recvIsList, resultIsList, intoRecv bool, elemKind string, want func(k int) ([]string, map[string]string)) (bad, undec string) {
 	norm := func(cell string) string {
+		if i := strings.LastIndex(cell, ")#"); i >= 0 && !strings.Contains(cell[i+2:], ")") {
+			cell = cell[:i+1] // a conversion made by a per-entry Add: one per entry is what a constructor does
+		}
 		pre := "W<" + elemKind + ">("
 		if elemKind != "" && strings.HasPrefix(cell, pre) {
 			return "pv(" + strings.TrimPrefix(cell, pre)
